@@ -78,7 +78,10 @@ MUTANTS = [
     ('C08', 'supp/linter.py', r"getattr\(sname, 'location', None\) == \(0, 0\)", "sname.location == (0, 0)", 'C08-R3'),
     ('C08', 'supp/evaluator.py', r"        if cname and not any\(cname is r for r in result\):", "        if cname:", 'C08-R4'),
     ('C08', 'supp/linter.py', r"    try:\n        source\.tree\n    except SyntaxError as e:\n        return \[\('E01', e\.msg, e\.lineno, e\.offset, None\)\]", "    source.tree", 'C08-R1'),
-    ('C08', 'supp/assistant.py', r"    try:\n        return _loc\(name\.declared_at, name\.filename\)\n    except AttributeError:\n        return None", "    return _loc(name.declared_at, name.filename)", 'C08-R3'),
+    ('C08', 'supp/assistant.py', r"    try:\n        location, filename = name\.declared_at, name\.filename\n    except AttributeError:\n        return None", "    location, filename = name.declared_at, name.filename", 'C08-R3'),
+    ('C11', 'supp/assistant.py', r"location, filename = name\.declared_at, name\.filename", "location, filename = name.location, name.filename", 'C11-R2'),
+    ('C11', 'supp/assistant.py', r"location = ln, col - len\(SOURCE_MARK\)", "location = ln, col", 'C11-R2'),
+    ('C11', 'supp/assistant.py', r"if ln == position\[0\] and col > position\[1\]:", "if col > position[1]:", 'C11-R2'),
     # ---- C09
     ('C09', 'supp/server.py', r"        with self\.project\.check_changes\(\):\n            return assistant\.location", "        if True:\n            return assistant.location", 'C09-R2'),
     ('C09', 'supp/project.py', r"        self\._context_cache\.clear\(\)\n        yield", "        yield", 'C09-R2'),
@@ -97,7 +100,7 @@ MUTANTS = [
     ('C11', 'supp/linter.py', r"name\.declared_at\[0\], name\.declared_at\[1\], flow", "name.location[0], name.location[1], flow", 'C11-R2'),
     ('C11', 'supp/scope.py', r"self\.args\.append\(ArgumentName\(\[ni\], n\.arg, self\.location, np\(n\), self\)\)", "self.args.append(ArgumentName([ni], n.arg, self.location, np(node), self))", 'C11-R1'),
     ('C11', 'supp/nast.py', r"self\.flow\.add_name\(AssignedName\(name\.id, eend, np\(name\), node\.value\)\)\n        self\.generic_visit\(node\)\n\n\nextract", "self.flow.add_name(AssignedName(name.id, eend, eend, node.value))\n        self.generic_visit(node)\n\n\nextract", 'C11-R1'),
-    ('C11', 'supp/assistant.py', r"return _loc\(name\.declared_at, name\.filename\)", "return _loc(name.location, name.filename)", 'C11-R2'),
+
     ('C11', 'supp/nast.py', r"declared_at = self\.top\.find_id_loc\(name, start\)\n            self\.flow\.add_name\(ImportedName\(name, loc, declared_at, iname, None,", "declared_at = start\n            self.flow.add_name(ImportedName(name, loc, declared_at, iname, None,", 'C11-R3'),
     # ---- C12
     ('C12', 'supp/assistant.py', r"sorted\(set\(unmark\(n\) if marked\(n\) else n for n in names\)\)", "sorted(names)", 'C12-R3'),
